@@ -57,6 +57,9 @@ func EmitC14(dir, pkg string, cases []*C14Case) error {
 			src += c.G.GoBuildFunc(prefix, "Build"+prefix+"Alt", alt.Unions)
 			reg = append(reg, fmt.Sprintf("\t\t%d: Build%sAlt,", 100000+c.ID, prefix))
 		}
+		// the root union itself as the grammar: Build[U0](Union[U0](...))
+		src += strings.Replace(c.G.GoBuildFunc(prefix, "Build"+prefix+"UnionRoot", c.G.Unions), "participle.Build["+gram.RootName(prefix)+"]", "participle.Build["+gram.UnionName(prefix, 0)+"]", 1)
+		reg = append(reg, fmt.Sprintf("\t\t%d: Build%sUnionRoot,", 200000+c.ID, prefix))
 		if err := os.WriteFile(filepath.Join(dir, fmt.Sprintf("g%d.go", c.ID)), []byte(src), 0o644); err != nil {
 			return err
 		}
@@ -244,6 +247,7 @@ func RunC14(t *testing.T, registry map[int]func() (string, error), dataFile stri
 		if alt := altGrammar(c.G); alt != nil {
 			all = append(all, &C14Case{ID: c.ID, G: alt, Text: "alt"})
 		}
+		all = append(all, &C14Case{ID: c.ID, G: c.G, Text: "unionroot"})
 	}
 	for _, c := range all {
 		if failed {
@@ -253,6 +257,10 @@ func RunC14(t *testing.T, registry map[int]func() (string, error), dataFile stri
 		if c.Text == "alt" {
 			build = registry[100000+c.ID]
 			r.Count("second_parser_for_the_same_root_type")
+		}
+		if c.Text == "unionroot" {
+			build = registry[200000+c.ID]
+			r.Count("union_type_as_root")
 		}
 		msg, sig := checkC14(r, c, build)
 		if msg == "" {
@@ -311,8 +319,12 @@ func checkC14(r *vstat.Run, c *C14Case, build func() (string, error)) (msg, sig 
 	if err != nil {
 		return fmt.Sprintf("the ebnf package does not parse Parser.String(): %v%s", err, desc()), "unparseable"
 	}
-	if len(ast.Productions) == 0 || ast.Productions[0].Production != gram.RootName(prefix) {
-		return "the first production is not the root " + gram.RootName(prefix) + desc(), "root-first"
+	rootName := gram.RootName(prefix)
+	if c.Text == "unionroot" {
+		rootName = gram.UnionName(prefix, 0)
+	}
+	if len(ast.Productions) == 0 || ast.Productions[0].Production != rootName {
+		return "the first production is not the root " + rootName + desc(), "root-first"
 	}
 	defined := map[string]int{}
 	for _, p := range ast.Productions {
@@ -340,9 +352,11 @@ func checkC14(r *vstat.Run, c *C14Case, build func() (string, error)) (msg, sig 
 	// completeness: every reachable production / union is defined with exactly the expected content
 	prods, unions := reachable(c.G)
 	want := map[string]bag{}
-	root := bag{}
-	root.add("prod", gram.UnionName(prefix, 0))
-	want[gram.RootName(prefix)] = root
+	if c.Text != "unionroot" {
+		root := bag{}
+		root.add("prod", gram.UnionName(prefix, 0))
+		want[gram.RootName(prefix)] = root
+	}
 	for u := range unions {
 		b := bag{}
 		for _, m := range c.G.Unions[u].Members {
